@@ -8,5 +8,6 @@ mod header;
 #[cfg(kani)]
 mod hexaddr;
 // tok.rs (C12: serde pairs through a strict token codec) is kept for reference but not compiled:
-// CBMC needs > 40 GB on the Bytes-backed RecordKey (vtable dispatch), see DESIGN I.7
+// CBMC needs > 40 GB on the Bytes-backed RecordKey (vtable dispatch) and does not finish in 20 min on a
+// Bytes-free Response either (derived Deserialize of the message enums), see DESIGN I.7
 // distance_glue.rs (C11 ii) is kept for reference but not compiled: 3 digits did not finish in 15 min
